@@ -1,4 +1,5 @@
-import HqModel.Lemmas.SysJobMeta
+import HqModel.Lemmas.SysProj
+import HqModel.Props.C01
 /-!
 # The composed system: job layer (M4) on top of the tako core (M1)
 
@@ -6,8 +7,9 @@ import HqModel.Lemmas.SysJobMeta
 requests run M4 and hand the core what `submit.rs` / `client/mod.rs` hand it; every core-driven action runs
 `Core.step` and delivers EVERY callback of `Out.cbs`, in order, to the matching M4 operation; the lists
 `on_task_error` returns are checked against the `rets` the core step consumed (`Stop.badRets`). The theorems below
-are about ALL runs of that system from the empty state whose world actions satisfy the decidable side conditions
-`Sys.OpOk` (`Lemmas/SysOk.lean`; a driver evaluates `decide (OpOk s op)` on every real step):
+are about ALL runs of that system from the empty state `initState reserve max` (`{}` is `initState 1 1`; the two
+numbers are the core's proactive-filling parameters, fixed per run) whose world actions satisfy the decidable side
+conditions `Sys.OpOk` (`Lemmas/SysOk.lean`; a driver evaluates `decide (OpOk s op)` on every real step):
 
 * `sys_registry` (C02, second sentence) — in every reachable state the key set of the core's task map, `job.sent`, and
   the set of non-terminal tasks of the stored jobs are the same set: no phantom and no orphan tasks;
@@ -27,9 +29,9 @@ namespace HqModel.Sys
 open HqModel
 
 /-- the invariant behind everything: `Coupled` holds in every reachable state -/
-theorem sys_coupled (ops : List Op) (s : State) (outs : List Out) (hok : RunOk {} ops)
-    (h : run {} ops = .ok (s, outs)) : Coupled s :=
-  run_coupled ops coupled_init hok h
+theorem sys_coupled (reserve max : Nat) (ops : List Op) (s : State) (outs : List Out) (hok : RunOk (initState reserve max) ops)
+    (h : run (initState reserve max) ops = .ok (s, outs)) : Coupled s :=
+  run_coupled ops (coupled_initState reserve max) hok h
 
 /-! ### C02: the two registries agree -/
 
@@ -37,13 +39,13 @@ theorem sys_coupled (ops : List Op) (s : State) (outs : List Out) (hok : RunOk {
 1. the keys of the core's task map are exactly the ids in `job.sent` (and they are distinct);
 2. *no orphan*: every key of the core's task map is a task of a stored job, in a non-terminal state;
 3. *no phantom*: a task of a stored job is non-terminal iff its id is a key of the core's task map. -/
-theorem sys_registry (ops : List Op) (s : State) (outs : List Out) (hok : RunOk {} ops)
-    (h : run {} ops = .ok (s, outs)) :
+theorem sys_registry (reserve max : Nat) (ops : List Op) (s : State) (outs : List Out) (hok : RunOk (initState reserve max) ops)
+    (h : run (initState reserve max) ops = .ok (s, outs)) :
     (∀ t, t ∈ Core.taskIds s.core.tasks ↔ t ∈ s.job.sent) ∧ (Core.taskIds s.core.tasks).Nodup ∧
     (∀ t ∈ Core.taskIds s.core.tasks, ∃ job st, s.job.getJob t.1 = some job ∧ Job.lookup job.tasks t.2 = some st ∧
       st.terminal = false) ∧
     (∀ job ∈ s.job.jobs, ∀ p ∈ job.tasks, p.2.terminal = false ↔ (job.id, p.1) ∈ Core.taskIds s.core.tasks) := by
-  have hc := (sys_coupled ops s outs hok h).c0
+  have hc := (sys_coupled reserve max ops s outs hok h).c0
   refine ⟨fun t => by rw [hc.ids t, hc.sent t], hc.nd, ?_, ?_⟩
   · intro t ht
     obtain ⟨st, hst, hterm⟩ := live_some ((hc.ids t).mp ht)
@@ -76,17 +78,17 @@ theorem sys_registry (ops : List Op) (s : State) (outs : List Out) (hok : RunOk 
 /-- **`sys_no_job_panic`** — in every reachable state, no world action satisfying the side conditions makes the job
 layer panic: every callback of the core step (`started` / `finished` / `error` / `worker new` / `worker lost`) is
 accepted by `process_task_started`, …, and no client request hits a panic site of the job layer -/
-theorem sys_no_job_panic (ops : List Op) (s : State) (outs : List Out) (hok : RunOk {} ops)
-    (h : run {} ops = .ok (s, outs)) (op : Op) (hop : OpOk s op) (site : String) :
+theorem sys_no_job_panic (reserve max : Nat) (ops : List Op) (s : State) (outs : List Out) (hok : RunOk (initState reserve max) ops)
+    (h : run (initState reserve max) ops = .ok (s, outs)) (op : Op) (hop : OpOk s op) (site : String) :
     step s op ≠ .error (.job site) := by
   intro he
-  have := step_good (sys_coupled ops s outs hok h) op hop
+  have := step_good (sys_coupled reserve max ops s outs hok h) op hop
   rw [he] at this
   exact this
 
 /-- the same for whole runs: a run whose actions satisfy the side conditions never stops in the job layer -/
-theorem sys_run_no_job_panic (ops : List Op) (hok : RunOk {} ops) (site : String) :
-    run {} ops ≠ .error (.job site) := by
+theorem sys_run_no_job_panic (reserve max : Nat) (ops : List Op) (hok : RunOk (initState reserve max) ops)
+    (site : String) : run (initState reserve max) ops ≠ .error (.job site) := by
   have key : ∀ (ops : List Op) (s : State), Coupled s → RunOk s ops → run s ops ≠ .error (.job site) := by
     intro ops
     induction ops with
@@ -108,19 +110,19 @@ theorem sys_run_no_job_panic (ops : List Op) (hok : RunOk {} ops) (site : String
           cases h
           exact ih s1 hg hok.2 he
         · cases h
-  exact key ops {} coupled_init hok
+  exact key ops _ (coupled_initState reserve max) hok
 
 /-- **the state coupling**: in every reachable state a task the core holds as Running — or as RunningMultiNode with
 the `started` flag of a reserved worker set — is `running` in the job layer, and every task of the core map is
 `waiting` or `running` there -/
-theorem sys_started_running (ops : List Op) (s : State) (outs : List Out) (hok : RunOk {} ops)
-    (h : run {} ops = .ok (s, outs)) (t : TaskId) (task : Core.Task) (ht : s.core.task? t = some task) :
+theorem sys_started_running (reserve max : Nat) (ops : List Op) (s : State) (outs : List Out) (hok : RunOk (initState reserve max) ops)
+    (h : run (initState reserve max) ops = .ok (s, outs)) (t : TaskId) (task : Core.Task) (ht : s.core.task? t = some task) :
     (∃ job, s.job.getJob t.1 = some job ∧
       (Job.lookup job.tasks t.2 = some .waiting ∨ Job.lookup job.tasks t.2 = some .running) ∧
       ((∃ w v, task.state = .running w v) → Job.lookup job.tasks t.2 = some .running) ∧
       (∀ l x wk r, task.state = .runningMN l → s.core.worker? x = some wk → wk.assign = .mn t r true →
         Job.lookup job.tasks t.2 = some .running)) := by
-  have hc := (sys_coupled ops s outs hok h).c0
+  have hc := (sys_coupled reserve max ops s outs hok h).c0
   have hlive := (hc.ids t).mp (Core.mem_ids_of_task? ht)
   obtain ⟨st, hst, _⟩ := live_some hlive
   obtain ⟨job, hj, hl⟩ := getJob_of_tst (js := s.job) (t := t) (by rw [hst]; rfl)
@@ -135,12 +137,12 @@ theorem sys_started_running (ops : List Op) (s : State) (outs : List Out) (hok :
 
 /-- **`sys_cancel_final`** — after a client cancel of job `j` (in any reachable state), no task of job `j` is in the
 core's task map, and every task of the job is terminal in the job layer -/
-theorem sys_cancel_final (ops : List Op) (s : State) (outs : List Out) (hok : RunOk {} ops)
-    (h : run {} ops = .ok (s, outs)) (j : Nat) (ids : List TaskId) (s' : State) (o : Out)
+theorem sys_cancel_final (reserve max : Nat) (ops : List Op) (s : State) (outs : List Out) (hok : RunOk (initState reserve max) ops)
+    (h : run (initState reserve max) ops = .ok (s, outs)) (j : Nat) (ids : List TaskId) (s' : State) (o : Out)
     (hstep : step s (.cancel j ids) = .ok (s', o)) :
     (∀ t ∈ Core.taskIds s'.core.tasks, t.1 ≠ j) ∧
     (∀ job', s'.job.getJob j = some job' → ∀ p ∈ job'.tasks, p.2.terminal = true) := by
-  have hc := sys_coupled ops s outs hok h
+  have hc := sys_coupled reserve max ops s outs hok h
   have hg := step_good hc (.cancel j ids) trivial
   rw [hstep] at hg
   obtain ⟨evs, resp, hj⟩ := step_cancel_job hstep
@@ -157,13 +159,13 @@ theorem sys_cancel_final (ops : List Op) (s : State) (outs : List Out) (hok : Ru
 
 /-- … hence no later message about a task of the cancelled job makes the core call back (until the job gets new
 tasks): the task is unknown to the core -/
-theorem sys_cancel_no_callback (ops : List Op) (s : State) (outs : List Out) (hok : RunOk {} ops)
-    (h : run {} ops = .ok (s, outs)) (j : Nat) (ids : List TaskId) (s' : State) (o : Out)
+theorem sys_cancel_no_callback (reserve max : Nat) (ops : List Op) (s : State) (outs : List Out) (hok : RunOk (initState reserve max) ops)
+    (h : run (initState reserve max) ops = .ok (s, outs)) (j : Nat) (ids : List TaskId) (s' : State) (o : Out)
     (hstep : step s (.cancel j ids) = .ok (s', o)) (t : TaskId) (ht : t.1 = j) (w rv : Nat) (orv : Option Nat) :
     s'.core.taskRunning w t rv = .ok (s'.core, {}) ∧ s'.core.taskFinished w t = .ok (s'.core, {}, false) ∧
     s'.core.taskFailed (some w) t [] = .ok (s'.core, {}) ∧ s'.core.taskReject w t orv = .ok (s'.core, {}, false) := by
   apply Core.unknown_task_ignored
-  have := (sys_cancel_final ops s outs hok h j ids s' o hstep).1
+  have := (sys_cancel_final reserve max ops s outs hok h j ids s' o hstep).1
   cases hf : s'.core.task? t with
   | none => rfl
   | some task => exact absurd ht (this t (Core.mem_ids_of_task? hf))
@@ -175,14 +177,14 @@ the callback `error t consumers` — and the job of `t` has more failed tasks th
 then no task of that job is in the core's task map any more (`on_task_error` returned ALL remaining tasks of the job,
 `C14.c14_decision`, and the core cancelled exactly those) — so none of them can be started later
 (`C01.c01_core_ignores_unknown`) -/
-theorem sys_max_fails (ops : List Op) (s : State) (outs : List Out) (hok : RunOk {} ops)
-    (h : run {} ops = .ok (s, outs)) (op : Op) (hop : OpOk s op) (s' : State) (o : Out)
+theorem sys_max_fails (reserve max : Nat) (ops : List Op) (s : State) (outs : List Out) (hok : RunOk (initState reserve max) ops)
+    (h : run (initState reserve max) ops = .ok (s, outs)) (op : Op) (hop : OpOk s op) (s' : State) (o : Out)
     (hstep : step s op = .ok (s', o)) (t : TaskId) (consumers : List TaskId)
     (hcb : Core.Cb.error t consumers ∈ o.core.cbs) (job' : Job.Job) (m : Nat)
     (hj : s'.job.getJob t.1 = some job') (hm : job'.maxFails = some m) (hex : job'.cnt.failed > m) :
     (∀ x ∈ Core.taskIds s'.core.tasks, x.1 ≠ t.1) ∧
     (∀ p ∈ job'.tasks, p.2.terminal = true) := by
-  have hc := sys_coupled ops s outs hok h
+  have hc := sys_coupled reserve max ops s outs hok h
   have hg := step_good hc op hop
   rw [hstep] at hg
   have hq : MaxFailsOk s'.job t.1 := by
@@ -201,6 +203,35 @@ theorem sys_max_fails (ops : List Op) (s : State) (outs : List Out) (hok : RunOk
     have := hnl (t.1, p.1) rfl
     rw [hl] at this
     simpa [live] using this
+
+/-! ### the single-layer theorems hold of the composed system -/
+
+/-- **the job layer of a composed run is a run of M4** over the client requests and the delivered callbacks
+(`runJobOps`), with the composed run's events — so every theorem about all `Job.run`s applies -/
+theorem sys_job_run (reserve max : Nat) (ops : List Op) (s : State) (outs : List Out)
+    (h : run (initState reserve max) ops = .ok (s, outs)) :
+    Job.run {} (runJobOps ops outs) = .ok (s.job, (outs.map (·.evs)).flatten) :=
+  run_job_run ops _ _ _ h
+
+/-- **the core of a composed run is a run of M1** whose operations satisfy `Core.OpOk2` — so `Core.run_invF` and every
+other theorem about all such `Core.run`s applies (for the default parameters; the general form is `run_core_run`) -/
+theorem sys_core_run (ops : List Op) (s : State) (outs : List Out) (hok : RunOk {} ops)
+    (h : run {} ops = .ok (s, outs)) :
+    ∃ cops out, Core.run {} cops = .ok (s.core, out) ∧ Core.RunOk Core.OpOk2 {} cops := by
+  obtain ⟨cops, out, hr, hk⟩ := run_core_run ops _ _ _ h
+  exact ⟨cops, out, hr, hk hok⟩
+
+/-- **C01 over composed runs** (`C01.c01_outcome_once` transferred): in the event stream of every composed run no task
+has more than one outcome, the stored jobs' tasks have exactly one iff they are terminal, and every `finished` is
+preceded by a `started` — with the callbacks the CORE makes, not arbitrary ones -/
+theorem sys_outcome_once (reserve max : Nat) (ops : List Op) (s : State) (outs : List Out)
+    (h : run (initState reserve max) ops = .ok (s, outs)) :
+    (∀ t : Job.TaskId, Job.termCount t (outs.map (·.evs)).flatten ≤ 1) ∧
+    (∀ job ∈ s.job.jobs, ∀ p ∈ job.tasks,
+      Job.termCount (job.id, p.1) (outs.map (·.evs)).flatten = if p.2.terminal then 1 else 0) ∧
+    (∀ t pre post, (outs.map (·.evs)).flatten = pre ++ [Job.Ev.finished t] ++ post →
+      ∃ i ws rv, Job.Ev.started t i ws rv ∈ pre) :=
+  C01.c01_outcome_once _ _ _ (sys_job_run reserve max ops s outs h)
 
 /-! ### non-vacuity: concrete composed runs -/
 
